@@ -204,6 +204,20 @@ func runC09(w *World, r *Report) {
 								}
 							}
 						}
+						if prm, isParam := sx.(*ssa.Parameter); isParam && len(srcs) == 0 && prm.Parent().Parent() != nil {
+							// the edge is added by a local function literal called once per parent: the arguments of those calls
+							lit := prm.Parent()
+							for k, p2 := range lit.Params {
+								if p2 != prm {
+									continue
+								}
+								instrsOf(lit.Parent(), func(in ssa.Instruction) {
+									if c, ok := in.(ssa.CallInstruction); ok && closureOf(c.Common().Value) == lit && k < len(c.Common().Args) {
+										srcs = append(srcs, pathOf(c.Common().Args[k]))
+									}
+								})
+							}
+						}
 						srcOK = len(parents) == 2 && strings.Join(uniqStrings(srcs), ",") == strings.Join(uniqStrings(parents), ",")
 						why = fmt.Sprintf("NewVertex parents %v, edge sources %v", parents, srcs)
 					} else {
